@@ -191,13 +191,12 @@ def run_spec3(ctx, spec, harvested, seen_cls, fail_cls, excluded_log):
             if a[0] != "ok" or a[1] != hx(w[1]):
                 ctx.disagree(f"{nm}: write() bytes != model enc", {"value": _short(toks), "padding": pad,
                                                                   "model": a[:2] if a[0] != "ok" else _short(a[1], 200), "py": hx(w[1])[:200]})
-                continue
-            if int(a[2]) != w[2]:
+            elif int(a[2]) != w[2]:
                 ctx.disagree(f"{nm}: count returned by write != model count", {"value": _short(toks), "py": w[2], "model": a[2]})
             if after != toks:
                 ctx.disagree(f"{nm}: write() changed the object (the model says it does not)", {"value": _short(toks), "after": _short(after)})
-            iswf = a[3] == "1"
             why = spec.excluded(x, pad, rpad)
+            iswf = (a[3] == "1") if a[0] == "ok" else (why is None)
             if iswf != (why is None):
                 ctx.disagree(f"{nm}: model WF disagrees with the harness's reading of the clauses",
                              {"value": _short(toks), "model_wf": iswf, "harness": why})
@@ -818,11 +817,355 @@ UNIT7_CLASSES = ["AlphaIdentifiers", "AlphaNamesPascal", "AlphaNamesUnicode", "A
                  "Slices", "ThumbnailResource", "ThumbnailResourceV4", "TransferFunction", "TransferFunctions", "URLItem", "URLList", "VersionInfo"]
 
 
+
+# ---------------------------------------------------------------------------------------------
+# unit 8: adjustments
+# ---------------------------------------------------------------------------------------------
+def sints(rng, w, n):
+    return ints(rng, w, n, signed=True)
+
+
+def gen_brightness(rng, quick):
+    K = _ADJ().BrightnessContrast
+    out = [("boundary", K()), ("boundary", K(65535, 65535, 65535, 255))]
+    out += [("generated", K(*ints(rng, 2, 3), *ints(rng, 1, 1))) for _ in range(4 if quick else 60)]
+    out += [("breaking", K(65536, 0, 0, 0)), ("breaking", K(0, 0, 0, 256)), ("breaking", K(-1, 0, 0, 0))]
+    return out
+
+
+def color_balance_tokens(x):
+    return [*row(*tuple(x.shadows)), *row(*tuple(x.midtones)), *row(*tuple(x.highlights)), *row(x.luminosity)]
+
+
+def gen_color_balance(rng, quick):
+    K = _ADJ().ColorBalance
+    out = [("boundary", K()), ("boundary", K((-32768, 32767, 0), (1, -1, 0), (0, 0, 0), True))]
+    out += [("generated", K(tuple(sints(rng, 2, 3)), tuple(sints(rng, 2, 3)), tuple(sints(rng, 2, 3)), rng.choice([0, 1, True, False, 255])))
+            for _ in range(4 if quick else 60)]
+    out += [("breaking", K((0, 0), (0, 0, 0), (0, 0, 0))), ("breaking", K((0, 0, 32768), (0, 0, 0), (0, 0, 0))), ("breaking", K(luminosity=256))]
+    return out
+
+
+def color_lookup_tokens(x):
+    import desc_common as dc
+    try:
+        return [dc.block_tokens(x, 2)]
+    except dc.NotRep as e:
+        raise NotRep(str(e))
+
+
+def gen_color_lookup(rng, quick):
+    K = _ADJ().ColorLookup
+    out = []
+    for _ in range(4 if quick else 80):
+        b = gen_desc_block(rng, 2)
+        out.append(("generated", K(b._items, name=b.name, classID=b.classID, version=rng.choice([0, 1, 65535]))))
+    b = gen_desc_block(rng, 2)
+    out.append(("breaking", K(b._items, name=b.name, classID=b.classID, version=65536)))
+    return out
+
+
+def channel_mixer_tokens(x):
+    return [*row(x.version, x.monochrome), *row(*list(x.data)), t_bytes(x.unknown)]
+
+
+def gen_channel_mixer(rng, quick):
+    K = _ADJ().ChannelMixer
+    out = [("boundary", K(1, 0, [0] * 5)), ("boundary", K(1, 65535, [-32768, 32767, 0, 1, -1], b"\x00\x01\x02"))]
+    out += [("generated", K(1, *ints(rng, 2, 1), sints(rng, 2, 5), bytes(rng.randrange(256) for _ in range(rng.choice([0, 0, 1, 4, 20])))))
+            for _ in range(4 if quick else 60)]
+    bad = K(1, 0, [0] * 5)
+    bad.version = 2
+    out += [("excluded", bad), ("breaking", K(1, 0, [0] * 4)), ("breaking", K(1, 0, [0, 0, 0, 0, 32768])), ("breaking", K(1, 65536, [0] * 5))]
+    return out
+
+
+def curve_points_tokens(points):
+    points = list(points)
+    if len(points) > 0 and isinstance(points[0], int):
+        return ["0", *row(*points)]
+    return ["1", *t_list(points, lambda p: row(*tuple(p)))]
+
+
+def curves_tokens(x):
+    if not is_bool(x.is_map):
+        raise NotRep("is_map is not a bool")
+    data = list(x.data)
+    if x.is_map:
+        d = ["0", *t_list(data, lambda m: row(*list(m)))]
+    else:
+        d = ["1", *t_list(data, lambda c: t_list(list(c), lambda p: row(*tuple(p))))]
+
+    def marker(m):
+        return [t_nat(m.version), *t_list(list(m), lambda it: [*row(it.channel_id), *curve_points_tokens(it.points)])]
+    return ["1" if x.is_map else "0", t_nat(x.version), t_nat(x.count_map), *d, *t_opt(x.extra, marker)]
+
+
+def curves_excluded(x):
+    if x.version not in (1, 4):
+        return "version-not-1-or-4"
+    n = bin(x.count_map).count("1") if x.version == 1 else x.count_map
+    if len(x.data) != n:
+        return "count-map-does-not-match-data"
+    if not x.is_map and any(not (2 <= len(c) <= 19) for c in x.data):
+        return "curve-point-count-outside-2..19"
+    if x.extra is not None:
+        if x.version != 1:
+            return "extra-marker-outside-version-1"
+        if x.extra.version not in (3, 4):
+            return "marker-version-rejected-by-validator"
+        for it in x.extra:
+            flat = len(it.points) > 0 and isinstance(it.points[0], int)
+            if flat != bool(x.is_map):
+                return "marker-item-shape-does-not-match-is_map"
+    return None
+
+
+def gen_curve(rng, n=None):
+    n = rng.choice([2, 3, 19]) if n is None else n
+    return [tuple(ints(rng, 2, 2)) for _ in range(n)]
+
+
+def gen_marker(rng, is_map, nitems=None):
+    A = _ADJ()
+    items = []
+    for _ in range(rng.choice([0, 1, 3]) if nitems is None else nitems):
+        items.append(A.CurvesExtraItem(ints(rng, 2, 1)[0], ints(rng, 1, 256) if is_map else gen_curve(rng, rng.choice([0, 1, 2, 5]))))
+    return A.CurvesExtraMarker(items=items, version=rng.choice([3, 4]))
+
+
+def gen_curves(rng, quick):
+    A = _ADJ()
+    K = A.Curves
+    out = []
+    for i in range(10 if quick else 200):
+        is_map = i % 2 == 1
+        version = [1, 4][(i // 2) % 2]
+        n = rng.choice([0, 1, 2, 3])
+        if version == 1:
+            bits = rng.sample(range(32), n)
+            count_map = sum(1 << b for b in bits)
+        else:
+            count_map = n
+        data = [ints(rng, 1, 256) for _ in range(n)] if is_map else [gen_curve(rng) for _ in range(n)]
+        extra = gen_marker(rng, is_map) if (version == 1 and rng.random() < 0.6) else None
+        out.append(("generated", K(is_map, version, count_map, data, extra)))
+    out.append(("boundary", K(False, 1, 2 ** 32 - 1, [gen_curve(rng, 2) for _ in range(32)], None)))
+    out += [("excluded", K(False, 4, 1, [gen_curve(rng)], gen_marker(rng, False))),
+            ("excluded", K(False, 1, 3, [gen_curve(rng)], None)),
+            ("excluded", K(False, 1, 1, [gen_curve(rng, 1)], None)),
+            ("excluded", K(False, 1, 1, [gen_curve(rng, 20)], None)),
+            ("excluded", K(False, 2, 1, [gen_curve(rng)], None)),
+            ("excluded", K(True, 1, 1, [ints(rng, 1, 256)], gen_marker(rng, False, 2))),
+            ("excluded", K(False, 1, 1, [gen_curve(rng)], gen_marker(rng, True, 1))),
+            ("breaking", K(False, 1, 2 ** 32, [], None)), ("breaking", K(True, 4, 1, [ints(rng, 1, 255)], None)),
+            ("breaking", K(False, 4, 1, [[(0, 65536), (1, 1)]], None))]
+    m = gen_marker(rng, False)
+    m.version = 5
+    out.append(("excluded", K(False, 1, 1, [gen_curve(rng)], m)))
+    return out
+
+
+def gradient_tokens(x):
+    return [*row(x.version, x.is_reversed, x.is_dithered), t_bytes(x.method), *t_str(x.name),
+            *t_list(list(x.color_stops), lambda s: row(s.location, s.midpoint, s.mode, *tuple(s.color))),
+            *t_list(list(x.transparency_stops), lambda s: row(s.location, s.midpoint, s.opacity)),
+            *row(x.expansion, x.interpolation, x.length, x.mode), *row(x.random_seed, x.show_transparency, x.use_vector_color),
+            *row(x.roughness, x.color_model), *row(*list(x.minimum_color)), *row(*list(x.maximum_color)), "0"]
+
+
+def gradient_excluded(x):
+    methods = (b"Gcls", b"Lnr ", b"Perc", b"Smoo")
+    if x.version not in (1, 3):
+        return "version-rejected-by-validator"
+    if x.version == 3 and len(x.method) != 4:
+        return "4s-field-not-4-bytes"
+    if x.version != 3 and x.method != b"Gcls":
+        return "method-is-stored-in-version-3-only"
+    if x.method not in methods or x.expansion != 2 or x.length != 32:
+        return "rejected-by-validator"
+    return ustr_bad(x.name)
+
+
+def gen_gradient(rng, quick):
+    A = _ADJ()
+    K = A.GradientMap
+    out = [("boundary", K(minimum_color=[0] * 4, maximum_color=[65535] * 4))]
+    for i in range(8 if quick else 150):
+        version = [1, 3][i % 2]
+        out.append(("generated", K(
+            version, *ints(rng, 1, 2), rng.choice(STRINGS), (rng.choice([b"Gcls", b"Lnr ", b"Perc", b"Smoo"]) if version == 3 else b"Gcls"),
+            [A.ColorStop(*ints(rng, 4, 2), *ints(rng, 2, 1), tuple(ints(rng, 2, 4))) for _ in range(rng.choice([0, 1, 2, 5]))],
+            [A.TransparencyStop(*ints(rng, 4, 2), *ints(rng, 2, 1)) for _ in range(rng.choice([0, 1, 2, 5]))],
+            2, *ints(rng, 2, 1), 32, *ints(rng, 2, 1), *ints(rng, 4, 1), *ints(rng, 2, 2), *ints(rng, 4, 1), *ints(rng, 2, 1),
+            ints(rng, 2, 4), ints(rng, 2, 4))))
+
+    def mut(field, value, version=1):
+        g = K(version=version, minimum_color=[0] * 4, maximum_color=[0] * 4)
+        setattr(g, field, value)
+        return g
+    out += [("excluded", mut("method", b"Lnr ", 1)), ("excluded", mut("method", b"abcd", 3)), ("excluded", mut("expansion", 3)),
+            ("excluded", mut("length", 31)), ("excluded", mut("version", 2)), ("excluded", mut("name", chr(0xD800) + chr(0xDC00))),
+            ("breaking", mut("minimum_color", [0] * 3)), ("breaking", mut("roughness", 2 ** 32)), ("breaking", mut("is_reversed", 256))]
+    return out
+
+
+def gen_exposure(rng, quick):
+    K = _ADJ().Exposure
+    out = [("boundary", K()), ("boundary", K(65535, 1.5, -0.25, 1e-3 if False else 0.5))]
+    out += [("generated", K(*ints(rng, 2, 1), *[f32_of(rng.randrange(0x7F800000)) * rng.choice([1, -1]) for _ in range(3)])) for _ in range(4 if quick else 60)]
+    out += [("breaking", K(65536, 0.0, 0.0, 0.0))]
+    return out
+
+
+def hue_tokens(x):
+    return [*row(x.version, x.enable), *row(*tuple(x.colorization)), *row(*tuple(x.master)),
+            *t_list(list(x.items), lambda it: [*row(*tuple(it[0])), *row(*tuple(it[1]))])]
+
+
+def gen_hue(rng, quick):
+    K = _ADJ().HueSaturation
+
+    def items(n=6):
+        return [[tuple(sints(rng, 2, 4)), tuple(sints(rng, 2, 3))] for _ in range(n)]
+    out = [("boundary", K(2, 1, (0, 0, 0), (0, 0, 0), items()))]
+    out += [("generated", K(2, *ints(rng, 1, 1), tuple(sints(rng, 2, 3)), tuple(sints(rng, 2, 3)), items())) for _ in range(4 if quick else 60)]
+    out += [("excluded", K()), ("excluded", K(2, 1, (0, 0, 0), (0, 0, 0), items(5))), ("excluded", K(2, 1, (0, 0, 0), (0, 0, 0), items(7))),
+            ("excluded", K(3, 1, (0, 0, 0), (0, 0, 0), items())), ("breaking", K(2, 256, (0, 0, 0), (0, 0, 0), items())),
+            ("breaking", K(2, 1, (0, 0), (0, 0, 0), items()))]
+    return out
+
+
+def levels_tokens(x):
+    items = list(x)
+    if len(items) < 29:
+        raise NotRep("fewer than 29 records: the writer raises IndexError (outside the model)")
+    return [t_nat(x.version), *t_opt(x.extra_version, lambda v: [t_nat(v)]),
+            *t_list(items, lambda r: row(r.input_floor, r.input_ceiling, r.output_floor, r.output_ceiling, r.gamma))]
+
+
+def levels_excluded(x):
+    if x.version != 2:
+        return "version-rejected-by-validator"
+    if x.extra_version is None:
+        return None if len(x) == 29 else "records-beyond-29-without-the-trailer"
+    return None if x.extra_version == 3 else "extra-version-not-3"
+
+
+def gen_levels(rng, quick):
+    A = _ADJ()
+    K, R = A.Levels, A.LevelRecord
+
+    def recs(n):
+        return [R(*ints(rng, 2, 5)) for _ in range(n)]
+    out = [("boundary", K(recs(29), 2, None)), ("boundary", K(recs(29), 2, 3)), ("boundary", K(recs(30), 2, 3))]
+    for n in ([29, 31, 33, 60] if quick else [29, 30, 31, 32, 33, 40, 60, 100] * 6):
+        out.append(("generated", K(recs(n), 2, 3)))
+        out.append(("generated", K(recs(29), 2, None)))
+    out += [("excluded", K(recs(30), 2, None)), ("excluded", K(recs(45), 2, None)), ("excluded", K(recs(30), 2, 4)), ("excluded", K(recs(29), 2, 0)),
+            ("breaking", K(recs(29), 2, 65536))]
+    bad = recs(29)
+    bad[3].gamma = 65536
+    out.append(("breaking", K(bad, 2, None)))
+    return out
+
+
+def photo_tokens(x):
+    if x.version == 3 and x.xyz is None:
+        raise NotRep("xyz is None in version 3: the writer raises TypeError (outside the model)")
+    if x.version != 3 and (x.color_space is None or x.color_components is None):
+        raise NotRep("colour is None in version 2: the writer raises TypeError (outside the model)")
+    xyz = row(*tuple(x.xyz)) if x.xyz is not None else ["0"]
+    if x.color_space is None and x.color_components is None:
+        col = ["0"]
+    elif x.color_space is None or x.color_components is None:
+        raise NotRep("colour space without components")
+    else:
+        col = row(x.color_space, *tuple(x.color_components))
+    return [t_nat(x.version), *xyz, *col, *row(x.density, x.luminosity)]
+
+
+def photo_excluded(x):
+    if x.version not in (2, 3):
+        return "version-rejected-by-validator"
+    if x.version == 3:
+        return None if (x.color_space is None and x.color_components is None) else "colour-is-not-stored-in-version-3"
+    return None if x.xyz is None else "xyz-is-not-stored-in-version-2"
+
+
+def gen_photo(rng, quick):
+    K = _ADJ().PhotoFilter
+    out = []
+    for i in range(6 if quick else 80):
+        if i % 2:
+            out.append(("generated", K(3, tuple(ints(rng, 4, 3)), None, None, *ints(rng, 4, 1), *ints(rng, 1, 1))))
+        else:
+            out.append(("generated", K(2, None, *ints(rng, 2, 1), tuple(ints(rng, 2, 4)), *ints(rng, 4, 1), *ints(rng, 1, 1))))
+    out += [("excluded", K(2, (0, 0, 0), 1, (0, 0, 0, 0), 5, 1)), ("excluded", K(3, (1, 2, 3), 1, (0, 0, 0, 0), 5, 1)),
+            ("breaking", K(3, (1, 2), None, None, 5, 1)), ("breaking", K(2, None, 65536, (0, 0, 0, 0), 5, 1)), ("breaking", K(3, (1, 2, 3), None, None, 5, 256))]
+    return out
+
+
+def gen_selective(rng, quick):
+    K = _ADJ().SelectiveColor
+    out = [("boundary", K(1, 0, [(0, 0, 0, 0)] * 10))]
+    out += [("generated", K(1, *ints(rng, 2, 1), [tuple(sints(rng, 2, 4)) for _ in range(10)])) for _ in range(4 if quick else 60)]
+    bad = K(1, 0, [(0, 0, 0, 0)] * 10)
+    bad.version = 2
+    out += [("excluded", K()), ("excluded", K(1, 0, [(0, 0, 0, 0)] * 9)), ("excluded", K(1, 0, [(0, 0, 0, 0)] * 11)), ("excluded", bad),
+            ("breaking", K(1, 0, [(0, 0, 0)] * 10)), ("breaking", K(1, 65536, [(0, 0, 0, 0)] * 10))]
+    return out
+
+
+def unit8_specs():
+    A = _ADJ
+    no_kw = lambda v, pad: {}
+    return [
+        PairSpec("BrightnessContrast", lambda: A().BrightnessContrast, lambda x: row(x.brightness, x.contrast, x.mean, x.lab_only), gen_brightness,
+                 offsets=(0, 2, 4, 6, 7)),
+        PairSpec("ColorBalance", lambda: A().ColorBalance, color_balance_tokens, gen_color_balance, offsets=(0, 6, 12, 18, 19)),
+        PairSpec("ColorLookup", lambda: A().ColorLookup, color_lookup_tokens, gen_color_lookup, excluded=lambda x: desc_excluded(x),
+                 pads=[(1, 1, None), (1, 4, None)], offsets=(0, 1, 2, 5, 6, 10, 14)),
+        PairSpec("ChannelMixer", lambda: A().ChannelMixer, channel_mixer_tokens, gen_channel_mixer,
+                 excluded=lambda x: None if x.version == 1 else "version-rejected-by-validator", at_end=True, offsets=(0, 2, 4, 13, 14)),
+        PairSpec("Curves", lambda: A().Curves, curves_tokens, gen_curves, excluded=curves_excluded, at_end=True,
+                 offsets=(0, 1, 3, 6, 7, 9, 11, 13, 17)),
+        PairSpec("GradientMap", lambda: A().GradientMap, gradient_tokens, gen_gradient, excluded=gradient_excluded,
+                 offsets=(0, 2, 4, 8, 12, 14, 16)),
+        PairSpec("ColorStop", lambda: A().ColorStop, lambda s: row(s.location, s.midpoint, s.mode, *tuple(s.color)),
+                 lambda r, q: [("generated", A().ColorStop(*ints(r, 4, 2), *ints(r, 2, 1), tuple(ints(r, 2, 4)))) for _ in range(4 if q else 60)]
+                 + [("breaking", A().ColorStop(0, 0, 0, (0, 0, 0)))], write_kw=no_kw, offsets=(0, 4, 8, 10, 18, 19)),
+        PairSpec("TransparencyStop", lambda: A().TransparencyStop, lambda s: row(s.location, s.midpoint, s.opacity),
+                 lambda r, q: [("generated", A().TransparencyStop(*ints(r, 4, 2), *ints(r, 2, 1))) for _ in range(4 if q else 60)]
+                 + [("breaking", A().TransparencyStop(0, 0, 65536))], write_kw=no_kw, offsets=(0, 4, 8, 9)),
+        PairSpec("Exposure", lambda: A().Exposure, lambda x: row(x.version, f32(x.exposure), f32(x.offset), f32(x.gamma)), gen_exposure,
+                 pads=[(1, 1, None), (1, 4, None)], offsets=(0, 2, 6, 10, 13)),
+        PairSpec("HueSaturation", lambda: A().HueSaturation, hue_tokens, gen_hue,
+                 excluded=lambda x: ("version-not-2" if x.version != 2 else (None if len(x.items) == 6 else "not-six-items")),
+                 offsets=(0, 2, 3, 4, 10, 16, 24, 30)),
+        PairSpec("Levels", lambda: A().Levels, levels_tokens, gen_levels, excluded=levels_excluded, at_end=True,
+                 offsets=(0, 2, 12, 290, 291, 292, 296, 298, 300)),
+        PairSpec("LevelRecord", lambda: A().LevelRecord, lambda r: row(r.input_floor, r.input_ceiling, r.output_floor, r.output_ceiling, r.gamma),
+                 lambda r, q: [("generated", A().LevelRecord(*ints(r, 2, 5))) for _ in range(4 if q else 60)] + [("breaking", A().LevelRecord(65536))],
+                 write_kw=no_kw, offsets=(0, 2, 9)),
+        PairSpec("PhotoFilter", lambda: A().PhotoFilter, photo_tokens, gen_photo, excluded=photo_excluded, offsets=(0, 2, 4, 12, 14, 17, 18)),
+        PairSpec("SelectiveColor", lambda: A().SelectiveColor, lambda x: [*row(x.version, x.method), *t_list(list(x.data), lambda p: row(*tuple(p)))],
+                 gen_selective, excluded=lambda x: ("version-rejected-by-validator" if x.version != 1 else (None if len(x.data) == 10 else "not-ten-plates")),
+                 offsets=(0, 2, 4, 12, 83)),
+    ]
+
+
+UNIT8_CLASSES = ["BrightnessContrast", "ColorBalance", "ColorLookup", "ChannelMixer", "Curves", "CurvesExtraMarker", "CurvesExtraItem",
+                 "GradientMap", "ColorStop", "TransparencyStop", "Exposure", "HueSaturation", "Levels", "LevelRecord", "PhotoFilter",
+                 "SelectiveColor"]
+
+
 def dat_instances():
     """instances parsed from the payload files of the repo's own tests (tests/image_resources, tests/tagged_blocks)"""
     out = collections.defaultdict(list)
     root = core.REPO / "tests"
-    for K, rel, kw in ((_IR().Slices, "image_resources/slices_0.dat", {}),):
+    for K, rel, kw in ((_IR().Slices, "image_resources/slices_0.dat", {}), (_ADJ().Curves, "tagged_blocks/curves.dat", {}),
+                       (_ADJ().Curves, "tagged_blocks/curves_2.dat", {})):
         try:
             out[K].append(K.frombytes((root / rel).read_bytes(), **kw))
         except Exception:  # noqa
@@ -833,7 +1176,7 @@ def dat_instances():
 # ---------------------------------------------------------------------------------------------
 # the check
 # ---------------------------------------------------------------------------------------------
-MODEL_CLASSES = list(UNIT7_CLASSES)
+MODEL_CLASSES = list(UNIT7_CLASSES) + UNIT8_CLASSES
 
 
 def run_units3(ctx, specs, sink, seen_cls, fail_cls, excluded_log, label):
@@ -892,6 +1235,9 @@ def _run(ctx):
         sink.setdefault(K, []).extend(xs)
     run_units3(ctx, unit7_specs(), sink, seen_cls, fail_cls, excluded_log, "unit7")
     unit7_witnesses(ctx)
+    run_units3(ctx, unit8_specs(), sink, seen_cls, fail_cls, excluded_log, "unit8")
+    seen_cls["CurvesExtraMarker"] += seen_cls.get("Curves", 0)
+    seen_cls["CurvesExtraItem"] += seen_cls.get("Curves", 0)
     ctx.extra["payload3_points_excluded_by_WF (information; format-excluded, see notes)"] = dict(excluded_log)
 
     cov = ctx.model_coverage if isinstance(ctx.model_coverage, dict) else {}
